@@ -229,6 +229,18 @@ Definition kt_name_abi (s : string) : option abi :=
    as an int whose low byte a C bool reads), so only a one-byte type mirrors a C bool inside records *)
 Definition kt_field_abi (s : string) : option abi :=
   if s =? "Boolean" then Some (AI 4 true) else kt_name_abi s.
+(* what a type name parsed from generated Kotlin / Dart denotes; [field]: inside a JNA Structure. Unknown names denote a
+   class nothing agrees with *)
+Definition kt_obs (field : bool) (s : string) : abi :=
+  match (if field then kt_field_abi s else kt_name_abi s) with
+  | Some a => a
+  | None => if (s =? "Pointer") || (s =? "Pointer?") then APtr else if s =? "Unit" then AUnit else AF 99
+  end.
+Definition dart_obs (s : string) : abi :=
+  match dart_name_abi s with
+  | Some a => a
+  | None => if s =? "ffi.Void" then AUnit else AF 99
+  end.
 Fixpoint erase_sign (a : abi) : abi :=
   match a with
   | AI b _ => AI b false | AIp _ => AIp false
